@@ -162,6 +162,7 @@ impl FileSystem for MemoryFS {
         if !found_directory {
             return Err(VfsErrorKind::FileNotFound.into());
         }
+        ensure_dir(&handle.files[path])?;
         Ok(Box::new(entries.into_iter()))
     }
 
@@ -337,6 +338,13 @@ struct MemoryFile {
     created: SystemTime,
     modified: Option<SystemTime>,
     accessed: Option<SystemTime>,
+}
+
+fn ensure_dir(file: &MemoryFile) -> VfsResult<()> {
+    if file.file_type != VfsFileType::Directory {
+        return Err(VfsErrorKind::Other("Not a directory".into()).into());
+    }
+    Ok(())
 }
 
 fn ensure_file(file: &MemoryFile) -> VfsResult<()> {
